@@ -116,3 +116,81 @@ Theorem ctxvar_fields_known :
   forallb (fun f => mem f ["key"; "val"; "buf"; "cntrF"; "cntr"; "ins"]) ctxvar_fields &&
   forallb (fun f => mem f ctxvar_fields) ("key" :: "ins" :: "cntr" :: repr_fields) = true.
 Proof. vm_compute. reflexivity. Qed.
+
+(* ---- inventories: what the model covers is what the source declares ----
+   A node type, an error value or a built-in modifier added to the code breaks one of these until
+   the model (and the statement of what is modelled) is brought up to date. *)
+From Coq Require Import ZArith.
+
+(* node types and the constructor of Model/Tree.v that carries each (harness/gallina.go maps by number) *)
+Definition modelled_node_types : list (string * Z * string) :=
+  [("typeRaw", 0%Z, "NRaw"); ("typeTpl", 1%Z, "NTpl"); ("typeCond", 2%Z, "NCond"); ("typeCondOK", 3%Z, "NCondOK");
+   ("typeCondTrue", 4%Z, "NBlock BTrue"); ("typeCondFalse", 5%Z, "NBlock BFalse"); ("typeLoopRange", 6%Z, "NLoopRange");
+   ("typeLoopCount", 7%Z, "NLoopCount"); ("typeBreak", 8%Z, "NBreak"); ("typeLBreak", 9%Z, "NLBreak"); ("typeContinue", 10%Z, "NContinue");
+   ("typeCtx", 11%Z, "NCtx"); ("typeCounter", 12%Z, "NCounter"); ("typeSwitch", 13%Z, "NSwitch"); ("typeCase", 14%Z, "NBlock BCase");
+   ("typeDefault", 15%Z, "NBlock BDefault"); ("typeDiv", 16%Z, "NOther (parser-internal divider, never left in a tree)");
+   ("typeJsonQ", 17%Z, "NFlag FJson true"); ("typeEndJsonQ", 18%Z, "NFlag FJson false"); ("typeHtmlE", 19%Z, "NFlag FHtml true");
+   ("typeEndHtmlE", 20%Z, "NFlag FHtml false"); ("typeUrlEnc", 21%Z, "NFlag FUrl true"); ("typeEndUrlEnc", 22%Z, "NFlag FUrl false");
+   ("typeInclude", 23%Z, "NInclude"); ("typeExit", 24%Z, "NExit")].
+
+Fixpoint same_types (a : list (string * Z)) (b : list (string * Z * string)) : bool :=
+  match a, b with
+  | [], [] => true
+  | (n, z) :: a', (n', z', _) :: b' => String.eqb n n' && Z.eqb z z' && same_types a' b'
+  | _, _ => false
+  end.
+
+Theorem node_types_all_modelled : same_types node_types modelled_node_types = true.
+Proof. vm_compute. reflexivity. Qed.
+
+(* error values and the class number of Model/VCase.v err_code / harness errCode (by message) *)
+Definition modelled_errors : list (string * string * Z) :=
+  [("ErrUnexpectedEOF", "unexpected end of file: control structure couldn't be closed", (-1)%Z);   (* parser only *)
+   ("ErrUnbalancedCtl", "unbalanced control structures found", (-1)%Z);                             (* parser only *)
+   ("ErrUnknownCtl", "unknown ctl", 1%Z); ("ErrSenselessCond", "comparison of two static args", 2%Z);
+   ("ErrCondHlpNotFound", "condition helper not found", 3%Z); ("ErrTplNotFound", "template not found", 4%Z);
+   ("ErrInterrupt", "tpl processing interrupted", 5%Z); ("ErrModNoArgs", "empty arguments list", 6%Z);
+   ("ErrModPoorArgs", "arguments list is too small", 7%Z); ("ErrModNoStr", "argument is not string or bytes", 8%Z);
+   ("ErrWrongLoopLim", "wrong count loop limit argument", 9%Z); ("ErrWrongLoopCond", "wrong loop condition operation", 10%Z);
+   ("ErrWrongLoopOp", "wrong loop operation", 11%Z); ("ErrBreakLoop", "break loop", 12%Z); ("ErrLBreakLoop", "lazybreak loop", 13%Z);
+   ("ErrContLoop", "continue loop", 14%Z); ("ErrUnknownPool", "unknown pool", 19%Z)].
+
+Fixpoint same_errors (a : list (string * string)) (b : list (string * string * Z)) : bool :=
+  match a, b with
+  | [], [] => true
+  | (n, m) :: a', (n', m', _) :: b' => String.eqb n n' && String.eqb m m' && same_errors a' b'
+  | _, _ => false
+  end.
+
+Theorem error_values_all_classified : same_errors error_values modelled_errors = true.
+Proof. vm_compute. reflexivity. Qed.
+
+(* built-in modifiers: in the interpreter model (Model/Mods.v pure_mod), in a model of their own
+   (Model/Round.v, Model/Arith.v), measured against an external oracle only, or outside the properties *)
+Inductive coverage := InInterp | OwnModel | Measured | TerminationOnly | NotAProperty.
+Definition mod_coverage : list (string * string * coverage) :=
+  [("", "default", InInterp); ("", "ifThen", InInterp); ("", "ifThenElse", InInterp); ("", "jsonEscape", InInterp);
+   ("", "jsonQuote", InInterp); ("", "htmlEscape", InInterp); ("", "linkEscape", InInterp); ("", "urlEncode", InInterp);
+   ("", "attrEscape", InInterp); ("", "cssEscape", InInterp); ("", "jsEscape", InInterp); ("", "raw", InInterp);
+   ("", "round", OwnModel); ("", "roundPrec", OwnModel); ("", "ceil", OwnModel); ("", "ceilPrec", OwnModel);
+   ("", "floor", OwnModel); ("", "floorPrec", OwnModel);
+   ("time", "now", NotAProperty); ("time", "format", Measured); ("time", "add", Measured);
+   ("math", "abs", OwnModel); ("math", "inc", OwnModel); ("math", "dec", OwnModel); ("math", "add", OwnModel);
+   ("math", "sub", OwnModel); ("math", "mul", OwnModel); ("math", "div", OwnModel); ("math", "mod", Measured);
+   ("math", "sqrt", OwnModel); ("math", "cbrt", Measured); ("math", "radical", TerminationOnly); ("math", "exp", Measured);
+   ("math", "log", Measured); ("math", "factorial", TerminationOnly); ("math", "max", OwnModel); ("math", "min", OwnModel);
+   ("math", "pow", Measured);
+   ("", "testNameOf", NotAProperty); ("testns", "pack", NotAProperty); ("testns", "extract", NotAProperty);
+   ("testns", "marshal", NotAProperty); ("testns", "modCB", NotAProperty)].
+
+Definition mod_known (m : string * string * string) : bool :=
+  let '(ns, name, _) := m in
+  existsb (fun c => let '(ns', name', _) := c in String.eqb ns ns' && String.eqb name name') mod_coverage.
+
+Theorem registered_mods_all_accounted : forallb mod_known registered_mods = true.
+Proof. vm_compute. reflexivity. Qed.
+
+Theorem registered_mods_present :
+  existsb (fun m => let '(_, n, _) := m in String.eqb n "default") registered_mods &&
+  Nat.leb 40 (List.length registered_mods) = true.
+Proof. vm_compute. reflexivity. Qed.
